@@ -58,6 +58,19 @@ Definition fn_likeG (p pb : N) (body : st -> gres_l) (x : st) : gres :=
    | None => None
    end, lg).
 
+(* a function-like in expression position; nothing is recorded under the enclosing statement's key *)
+Definition fn_exprG (fp pb : N) (body : st -> gres_l) (x : st) : gres :=
+  let '(y, _, lg) := fn_likeG fp pb body x in (visit_lit y, None, lg).
+
+Definition for_headG (fp pb : N) (hbody : st -> gres_l) (x : st) : gres :=
+  if fixE fx then fn_exprG fp pb hbody x else (x, None, []).
+
+(* `hd` (the loop head), then `tl` (the loop) *)
+Definition seqG (hd tl : st -> gres) (x : st) : gres :=
+  let '(y, _, lg1) := hd x in
+  let '(z, r, lg2) := tl y in
+  (z, r, lg1 ++ lg2).
+
 Definition visit_returnG (p : N) (arg : option expr) (x : st) : st * option End :=
   let x := match arg with Some e => visit_e e x | None => x end in
   (mark_as_end p forced_return x, mark_val (s_end (sc x)) forced_return).
@@ -168,6 +181,7 @@ Fixpoint anG (s : stmt) (x0 : st) {struct s} : gres :=
   | SVar p isv init => (match init with Some e => visit_e e x | None => x end, None, [])
   | SFnDecl p name pb body => fn_likeG p pb (anG_list body) x
   | SArrowStmt p pb body => let '(y, r, lg) := fn_likeG p pb (anG_list body) x in (visit_lit y, r, lg)
+  | SGetterStmt p gp pb body => fn_exprG gp pb (anG_list body) x
   | SRet p arg => let '(y, r) := visit_returnG p arg x in (y, r, [])
   | SThrow p e => let '(y, r) := visit_throwG p e x in (y, r, [])
   | SBrk p l => (visit_break fx l x, None, [])
@@ -180,6 +194,7 @@ Fixpoint anG (s : stmt) (x0 : st) {struct s} : gres :=
   | SDoWhile p b c => visit_do_whileG p c (pos b) (anG b) x
   | SFor p c b => visit_forG p c (pos b) (anG b) x
   | SForIn p b | SForOf p b => visit_for_inG (pos b) (anG b) x
+  | SForHead p _ fp pb hb b => seqG (for_headG fp pb (anG_list hb)) (visit_for_inG (pos b) (anG b)) x
   | SSwitch p cs => visit_switchG p cs (anG_cases cs) x
   | SLabel p l b =>
       let '(y, _, lg) := with_childG (KLabel l) p (fun a => orbG b (anG b a)) x in (y, None, lg)
